@@ -396,6 +396,10 @@ class ExprMixin:
             if isinstance(o, ListV) and o.items is not None and not isinstance(item, (Sym, Ref)):
                 if all(not isinstance(x, (Sym, Ref)) for x in o.items):
                     return item in o.items
+            if isinstance(o, ListV) and o.items is not None and isinstance(item, Sym) and item.tag in ("int", "attval") \
+                    and all(isinstance(x, int) and not isinstance(x, bool) for x in o.items):
+                # a symbolic number in a concrete list of numbers (x in list(TABLE.values()))
+                return z3.Or(*[item.t == x for x in o.items]) if o.items else False
         if isinstance(container, (str, Sym)) and (isinstance(item, str) or (isinstance(item, Sym) and item.tag == "str")):
             return z3.Contains(str_term(container), str_term(item))
         raise Unsupported(f"`in` on {container!r}")
